@@ -228,6 +228,22 @@ Section ScalarRT.
     repeat (apply Forall_app; split); try (apply digits_plain; assumption); repeat constructor; unfold plain; lia.
   Qed.
 
+  Lemma date_core t y mo d : Forall plain t -> date_string y mo d = t -> date_from_string t = Some (y, mo, d) ->
+    y <> 0%Z -> mo <> 0%Z -> d <> 0%Z ->
+    exists J, (exists txt, enc_scalar fmt_float KDate (VMsg [(1, VInt y); (2, VInt mo); (3, VInt d)]) = Ok txt /\ txt = print J) /\
+              wfb J = true /\ is_container J = false /\ J <> JNull /\
+              exists v', dec_scalar KDate J = Ok (Some v') /\
+                         scalar_equiv KDate (VMsg [(1, VInt y); (2, VInt mo); (3, VInt d)]) v'.
+  Proof.
+    intros Hpl Hfmt Hpd Hy Hmo Hd. destruct (print_plain_str _ Hpl) as [Hp Hw].
+    exists (JStr t).
+    split. { exists (print (JStr t)). split; [|reflexivity]. rewrite enc_scalar_date, Hfmt, escape_spec.
+             change (wfb (JStr t)) with (valid_utf8 t) in Hw. rewrite Hw. reflexivity. }
+    split; [exact Hw|]. split; [reflexivity|]. split; [discriminate|].
+    exists (VMsg [(1, VInt y); (2, VInt mo); (3, VInt d)]). split; [|reflexivity].
+    rewrite dec_scalar_date, Hpd. rewrite mk_date_nz by assumption. reflexivity.
+  Qed.
+
   Lemma scalar_rt_KDate v : rep_scalar KDate v ->
     exists J, (exists txt, enc_scalar fmt_float KDate v = Ok txt /\ txt = print J) /\ wfb J = true /\
               is_container J = false /\ J <> JNull /\
@@ -235,15 +251,8 @@ Section ScalarRT.
   Proof.
     intros Hr. destruct v; cbn [rep_scalar] in Hr; try contradiction.
     destruct Hr as (y & mo & d & -> & Hy & Hmo & Hd).
-    pose proof (days_in_le mo y) as Hdi.
-    pose proof (date_string_plain y mo d Hy Hmo Hd) as Hpl.
-    destruct (print_plain_str _ Hpl) as [Hp Hw].
-    exists (JStr (date_string y mo d)).
-    split. { exists (print (JStr (date_string y mo d))). split; [|reflexivity]. rewrite enc_scalar_date, escape_spec.
-             change (wfb (JStr (date_string y mo d))) with (valid_utf8 (date_string y mo d)) in Hw. rewrite Hw. reflexivity. }
-    split; [exact Hw|]. split; [reflexivity|]. split; [discriminate|].
-    exists (VMsg [(1, VInt y); (2, VInt mo); (3, VInt d)]). split; [|reflexivity].
-    rewrite dec_scalar_date, date_roundtrip by lia. rewrite mk_date_nz by lia. reflexivity.
+    apply (date_core (date_string y mo d) y mo d (date_string_plain y mo d Hy Hmo Hd) eq_refl); try lia.
+    apply date_roundtrip; lia.
   Qed.
 
   Lemma scalar_rt_KDecimal v : rep_scalar KDecimal v ->
@@ -259,6 +268,38 @@ Section ScalarRT.
       exists s, s'. repeat split; assumption.
   Qed.
 
+  Lemma dec_scalar_ts s : dec_scalar KTimestamp (JStr s) =
+    match parse_time s with Some (sec, ns) => Ok (Some (mk_timestamp sec ns)) | None => Err "time.Parse" end.
+  Proof. reflexivity. Qed.
+
+  Lemma enc_scalar_ts m : enc_scalar fmt_float KTimestamp (VMsg m) =
+    obind (field_int 1 m) (fun s => obind (field_int 2 m) (fun ns => escape (format_rfc3339nano s ns))).
+  Proof. reflexivity. Qed.
+
+  Lemma ts_plain s ns : ts_range s ns -> Forall plain (format_rfc3339nano s ns).
+  Proof.
+    intros Hrange. pose proof (format_rfc3339_chars s ns Hrange) as Hc. eapply Forall_impl; [|exact Hc].
+    intros c [Hd|[->|[->|[->|[->| ->]]]]]; unfold plain; try lia. unfold is_digit in Hd. lia.
+  Qed.
+
+  (* the text is kept abstract here: the kernel must not unfold the formatter when it compares
+     [wfb (JStr t)] with [valid_utf8 t] *)
+  Lemma ts_core t s ns m : Forall plain t -> field_int 1 m = Ok s -> field_int 2 m = Ok ns ->
+    format_rfc3339nano s ns = t -> parse_time t = Some (s, ns) -> VMsg m = mk_timestamp s ns ->
+    exists J, (exists txt, enc_scalar fmt_float KTimestamp (VMsg m) = Ok txt /\ txt = print J) /\ wfb J = true /\
+              is_container J = false /\ J <> JNull /\
+              exists v', dec_scalar KTimestamp J = Ok (Some v') /\ scalar_equiv KTimestamp (VMsg m) v'.
+  Proof.
+    intros Hpl H1 H2 Hfmt Hpt Hm. destruct (print_plain_str _ Hpl) as [Hp Hw].
+    exists (JStr t).
+    split. { exists (print (JStr t)). split; [|reflexivity].
+             rewrite enc_scalar_ts, H1. unfold obind at 1. rewrite H2. unfold obind at 1. rewrite Hfmt, escape_spec.
+             change (wfb (JStr t)) with (valid_utf8 t) in Hw. rewrite Hw. reflexivity. }
+    split; [exact Hw|]. split; [reflexivity|]. split; [discriminate|].
+    exists (mk_timestamp s ns). split; [|unfold scalar_equiv; symmetry; exact Hm].
+    rewrite dec_scalar_ts, Hpt. reflexivity.
+  Qed.
+
   Lemma scalar_rt_KTimestamp v : rep_scalar KTimestamp v ->
     exists J, (exists txt, enc_scalar fmt_float KTimestamp v = Ok txt /\ txt = print J) /\ wfb J = true /\
               is_container J = false /\ J <> JNull /\
@@ -266,18 +307,9 @@ Section ScalarRT.
   Proof.
     intros Hr. destruct v; cbn [rep_scalar] in Hr; try contradiction.
     destruct Hr as (s & ns & Hm & Hrange).
-      destruct (field_int_mk_timestamp s ns fields Hm) as [H1 H2].
-      pose proof (parse_format_rfc3339 s ns Hrange) as Hpf.
-      set (t := format_rfc3339nano s ns) in *.
-      assert (Hpl : Forall plain t).
-      { (* every character of a formatted instant is a digit, '-', ':', '.', 'T' or 'Z' *)
-        pose proof (format_rfc3339_chars s ns Hrange) as Hc. eapply Forall_impl; [|exact Hc].
-        intros c [Hd|[->|[->|[->|[->| ->]]]]]; unfold plain; try lia. unfold is_digit in Hd. lia. }
-      destruct (print_plain_str _ Hpl) as [Hp Hw].
-      exists (JStr t). split; [eexists; split; [cbn [CodecEnc.enc_scalar]; rewrite H1; cbn [obind]; rewrite H2; cbn [obind]; fold t; rewrite escape_spec; cbn [wfb] in Hw; rewrite Hw; reflexivity|reflexivity]|].
-      split; [exact Hw|]. split; [reflexivity|]. split; [discriminate|].
-      exists (mk_timestamp s ns). split; [|cbn [scalar_equiv]; rewrite Hm; reflexivity].
-      cbn [CodecEncDec.dec_scalar]. rewrite (Htime _ _ Hpf). reflexivity.
+    destruct (field_int_mk_timestamp s ns fields Hm) as [H1 H2].
+    exact (ts_core (format_rfc3339nano s ns) s ns fields (ts_plain s ns Hrange) H1 H2 eq_refl
+             (Htime _ _ (parse_format_rfc3339 s ns Hrange)) Hm).
   Qed.
 
   Theorem scalar_roundtrip k v : rep_scalar k v ->
@@ -876,12 +908,12 @@ Section RT.
   Proof.
     decide equality; try apply Bool.bool_dec; try (apply list_eq_dec; apply N.eq_dec).
     decide equality.
-  Qed.
+  Defined.
 
   Lemma property_eq_dec : forall p q : property, {p = q} + {p <> q}.
   Proof.
     decide equality; try apply Bool.bool_dec; try (apply list_eq_dec; apply N.eq_dec); apply field_ty_eq_dec.
-  Qed.
+  Defined.
 
   Lemma inv_none L m D acc l : Inv L m D acc -> In l L -> present (p_path l) m = None -> present (p_path l) acc = None.
   Proof.
@@ -1696,4 +1728,106 @@ Section RT.
       { rewrite jsize_obj. lia. } { unfold depth_ok. lia. }
       exists b. split; assumption.
   Qed.
+
+  (* ---------------------------------------------------------------- the static conditions, decided *)
+  Fixpoint diverge_b (p q : list N) : bool :=
+    match p, q with
+    | x :: p', y :: q' => if x =? y then diverge_b p' q' else true
+    | _, _ => false
+    end.
+
+  Lemma diverge_b_sound p : forall q, diverge_b p q = true -> paths_diverge p q.
+  Proof.
+    induction p as [|x p IH]; intros [|y q] H; cbn [diverge_b] in H; try discriminate.
+    destruct (x =? y) eqn:E.
+    - apply N.eqb_eq in E. subst y. destruct (IH q H) as (c & a & b & rp & rq & -> & -> & Hne).
+      exists (x :: c), a, b, rp, rq. repeat split; assumption || reflexivity.
+    - exists [], x, y, p, q. repeat split; try reflexivity. lia.
+  Qed.
+
+  Definition prop_eqb (a b : property) : bool := if property_eq_dec a b then true else false.
+  Fixpoint nodup_b {A} (eqb : A -> A -> bool) (l : list A) : bool :=
+    match l with
+    | [] => true
+    | x :: r => negb (existsb (eqb x) r) && nodup_b eqb r
+    end.
+
+  Lemma nodup_b_sound {A} (eqb : A -> A -> bool) (l : list A) :
+    (forall a b, a = b -> eqb a b = true) -> nodup_b eqb l = true -> NoDup l.
+  Proof.
+    intros Heq. induction l as [|x r IH]; intros H; [constructor|]. cbn [nodup_b] in H.
+    apply andb_true_iff in H as [H1 H2]. constructor; [|apply IH; exact H2].
+    intros Hin. apply negb_true_iff in H1. assert (E : existsb (eqb x) r = true) by (apply existsb_exists; exists x; split; [exact Hin|apply Heq; reflexivity]).
+    congruence.
+  Qed.
+
+  Definition path_eqb (a b : list N) : bool := if list_eq_dec N.eq_dec a b then true else false.
+
+  Definition siblings_ok_b (L : list property) (l : property) : bool :=
+    let a := removelast (p_path l) in
+    let n := last (p_path l) 0 in
+    forallb (fun s => negb (s =? n) && existsb (fun l2 => path_eqb (p_path l2) (a ++ [s])) L) (p_siblings l).
+
+  Definition props_ok_b (ps : list property) : bool :=
+    let L := leaves ps in
+    nodup_b bytes_eqb (map p_json ps) && nodup_b prop_eqb L &&
+    forallb (fun l => match p_path l with [] => false | _ => true end) L &&
+    forallb (fun l1 => forallb (fun l2 => prop_eqb l1 l2 || diverge_b (p_path l1) (p_path l2)) L) L &&
+    forallb (siblings_ok_b L) L.
+
+  Lemma props_ok_b_sound ps : props_ok_b ps = true -> props_ok ps.
+  Proof.
+    unfold props_ok_b. intros H.
+    apply andb_true_iff in H as [H Hs]. apply andb_true_iff in H as [H Hd].
+    apply andb_true_iff in H as [H Hp]. apply andb_true_iff in H as [Hn Hnd].
+    constructor.
+    - apply (nodup_b_sound bytes_eqb); [intros a b ->; apply bytes_eqb_refl|exact Hn].
+    - apply (nodup_b_sound prop_eqb); [|exact Hnd]. intros a b ->. unfold prop_eqb. destruct (property_eq_dec b b); [reflexivity|congruence].
+    - intros l Hl. rewrite forallb_forall in Hp. specialize (Hp l Hl). destruct (p_path l); [discriminate|discriminate].
+    - intros l1 l2 H1 H2 Hne. rewrite forallb_forall in Hd. specialize (Hd l1 H1). rewrite forallb_forall in Hd. specialize (Hd l2 H2).
+      apply orb_true_iff in Hd as [He|Hdv]; [|apply diverge_b_sound; exact Hdv].
+      unfold prop_eqb in He. destruct (property_eq_dec l1 l2); [contradiction|discriminate].
+    - intros l a n s Hl Hpath Hsib. rewrite forallb_forall in Hs. specialize (Hs l Hl). unfold siblings_ok_b in Hs.
+      rewrite forallb_forall in Hs. specialize (Hs s Hsib). apply andb_true_iff in Hs as [Hne Hex].
+      rewrite Hpath in Hne, Hex. rewrite removelast_last in Hex. rewrite last_last in Hne.
+      split; [apply negb_true_iff in Hne; lia|].
+      apply existsb_exists in Hex as (l2 & Hl2 & He). exists l2. split; [exact Hl2|].
+      unfold path_eqb in He. destruct (list_eq_dec N.eq_dec (p_path l2) (a ++ [s])); [assumption|discriminate].
+  Qed.
+
 End RT.
+
+(* ---------------------------------------------------------------- the hypothesis on oneof member names, decided *)
+Definition oneof_names_ok_b (e : env) : bool :=
+  forallb (fun ns => match snd ns with
+                     | SOneof ps => nodup_b bytes_eqb (map p_json ps) &&
+                                    forallb (fun q => negb (bytes_eqb (p_json q) txt_type)) ps
+                     | _ => true
+                     end) e.
+
+Lemma lookup_in (e : env) name s : lookup e name = Some s -> exists n', In (n', s) e.
+Proof.
+  induction e as [|[n0 s0] r IH]; cbn [lookup]; [discriminate|].
+  destruct (bytes_eqb n0 name); [intros [= <-]; exists n0; left; reflexivity|].
+  intros H. destruct (IH H) as (n' & Hin). exists n'. right. exact Hin.
+Qed.
+
+Lemma oneof_names_ok_b_sound (e : env) : oneof_names_ok_b e = true -> oneof_names_ok e.
+Proof.
+  unfold oneof_names_ok_b, oneof_names_ok. intros H name ps Hlk. rewrite forallb_forall in H.
+  destruct (lookup_in _ _ _ Hlk) as (n' & Hin). specialize (H _ Hin). cbn [snd] in H.
+  apply andb_true_iff in H as [H1 H2]. split.
+  - apply (nodup_b_sound bytes_eqb); [intros a b ->; apply bytes_eqb_refl|exact H1].
+  - intros q Hq E. rewrite forallb_forall in H2. specialize (H2 q Hq). rewrite E, bytes_eqb_refl in H2. discriminate.
+Qed.
+
+Lemma oneofs_flat_b_sound (e : env) :
+  forallb (fun ns => match snd ns with
+                     | SOneof ps => forallb (fun p => match p_path p with [] => false | _ => true end) ps
+                     | _ => true
+                     end) e = true -> oneofs_flat e.
+Proof.
+  intros H name ps Hlk. rewrite forallb_forall in H. destruct (lookup_in _ _ _ Hlk) as (n' & Hin).
+  specialize (H _ Hin). cbn [snd] in H. apply Forall_forall. intros p Hp. rewrite forallb_forall in H.
+  specialize (H p Hp). destruct (p_path p); [discriminate|discriminate].
+Qed.
